@@ -16,8 +16,11 @@ func zzC19Results() {
 	rt := resultType("")
 	if needsInput {
 		rt = resultTypeInputRequired
-		if vBool("hasInputRequests") {
+		switch vChoice("inputRequests", 3) {
+		case 1:
 			ir = InputRequestMap{"r1": &ListRootsParams{}}
+		case 2:
+			ir = InputRequestMap{} // empty but present: the load-shedding signal ("busy, retry") — not the same as absent
 		}
 	}
 	state := vStringN("requestState", 1)
@@ -40,7 +43,7 @@ func zzC19Results() {
 		vAssert(g.UnmarshalJSON(data) == nil, "C19.result.unmarshal-ok")
 		vAssert(zzMetaEq(g.Meta, c.Meta) && g.IsError == c.IsError, "C19.result.calltool-roundtrip")
 		vAssert(g.NeedsInput() == needsInput, "C19.result.result-type-roundtrip")
-		vAssert(len(g.InputRequests) == len(c.InputRequests), "C19.result.input-requests-roundtrip")
+		vAssert(len(g.InputRequests) == len(c.InputRequests) && (g.InputRequests == nil) == (c.InputRequests == nil), "C19.result.input-requests-roundtrip")
 		vAssert(g.Content != nil && len(g.Content) == n, "C19.result.content-roundtrip")
 		for i := 0; i < n && i < len(g.Content); i++ {
 			t, ok := g.Content[i].(*TextContent)
@@ -65,6 +68,7 @@ func zzC19Results() {
 		vAssert(g.UnmarshalJSON(data) == nil, "C19.result.unmarshal-ok")
 		vAssert(zzMetaEq(g.Meta, p.Meta) && g.Description == p.Description && g.RequestState == p.RequestState, "C19.result.getprompt-roundtrip")
 		vAssert(g.NeedsInput() == needsInput && len(g.InputRequests) == len(p.InputRequests), "C19.result.result-type-roundtrip")
+		vAssert((g.InputRequests == nil) == (p.InputRequests == nil), "C19.result.input-requests-roundtrip")
 		vAssert(len(g.Messages) == len(p.Messages), "C19.result.messages-roundtrip")
 		if len(g.Messages) == 1 {
 			t, ok := g.Messages[0].Content.(*TextContent)
@@ -86,6 +90,7 @@ func zzC19Results() {
 		vAssert(g.UnmarshalJSON(data) == nil, "C19.result.unmarshal-ok")
 		vAssert(zzMetaEq(g.Meta, r.Meta) && g.RequestState == r.RequestState && g.TTLMs == r.TTLMs, "C19.result.readresource-roundtrip")
 		vAssert(g.NeedsInput() == needsInput && len(g.InputRequests) == len(r.InputRequests), "C19.result.result-type-roundtrip")
+		vAssert((g.InputRequests == nil) == (r.InputRequests == nil), "C19.result.input-requests-roundtrip")
 		vAssert(len(g.Contents) == len(r.Contents), "C19.result.contents-roundtrip")
 		if len(g.Contents) == 1 {
 			vAssert(g.Contents[0].URI == uri && g.Contents[0].Text == text, "C19.result.contents-roundtrip")
